@@ -241,3 +241,11 @@ NOT_APPLICABLE = {
     'C18': 'quantifies over schedules of a rayon pool: Kani has no threads, Verus would need the code rewritten onto its permission types (a model) (DESIGN.md 6)',
     'C19': 'precedence lives in config::ConfigBuilder, serde(deny_unknown_fields), clap and a directory walk on the real file system: no function-level contract of repository code can express it (DESIGN.md 6)',
 }
+
+# Verus function -> Kani harnesses of the same function (run when only a proof hint of the Verus unit fails)
+VX_KX_PAIRS = {
+    'lexops/dec_number_literal': [('lexcomplex', 'verif_lex::lexcomplex_dec_number5')],
+    'lexops/asm_number_literal': [('lexscan', 'verif_lex::lexscan_counts4')],
+    'lexops/hex_number_literal': [('lexscan', 'verif_lex::lexscan_counts4')],
+    'lexops/binary_number_literal': [('lexscan', 'verif_lex::lexscan_counts4')],
+}
